@@ -69,12 +69,24 @@ def onAtomStr : OnAtom → String
   | .scope n => "scope" ++ toString n
   | .user n => "user" ++ toString n
 
+/-- JVal JSON: null = nil pointer, [[name, value]…] = struct with the listed relation fields (depth-bounded) -/
+def parseJVal : Nat → Json → JVal
+  | 0, _ => .nilp
+  | fuel + 1, j =>
+    match jArr? j with
+    | none => .nilp
+    | some a => .obj (a.toList.filterMap (fun kv =>
+        match jArr? kv with
+        | some p => (jStr? (arg p 0)).map (fun k => (k.toList, parseJVal fuel (arg p 1)))
+        | none => none))
+
 def dedupNat (l : List Nat) : List Nat := l.foldl (fun acc a => if acc.contains a then acc else acc ++ [a]) []
 
 /-- ["key.join", [vals]] -> string
     ["id.slice", [rows]] / ["id.struct", row] -> {groups, values}
     ["preload.direct", [parents], [children]] -> [[addr, [child ids]]…] (distinct addresses, first-seen order)
-    ["join.on", [refs], queryClauses, userOn] -> [atoms] -/
+    ["join.on", [refs], queryClauses, userOn] -> [atoms]
+    ["entry.walk", value, [hops]] -> bool (true = completes, false = nil dereference) -/
 def handleC11 (op : String) (args : Array Json) : Option Json := do
   match op with
   | "key.join" =>
@@ -91,6 +103,9 @@ def handleC11 (op : String) (args : Array Json) : Option Json := do
     let cs ← (← jArr? (arg args 2)).toList.mapM parseKChild
     let addrs := dedupNat (ps.map (·.addr))
     some (Json.arr (addrs.map (fun a => Json.arr #[natJ a, natListJ (preloadDirect ps cs a)])).toArray)
+  | "entry.walk" =>
+    let hops ← (← jArr? (arg args 2)).toList.mapM jStr?
+    some (Json.bool (entryWalk (parseJVal 16 (arg args 1)) (hops.map String.toList)))
   | "join.on" =>
     let refs ← (← jArr? (arg args 1)).toList.mapM parseJoinRef
     let qc ← jNat? (arg args 2)
